@@ -29,7 +29,7 @@ var HostileKinds = []string{
 	"tx-dup-conversion-later", "tx-truncated", "tx-bitflip", "tx-hostile-numbers", "tx-100", "opr-bad-address", "opr-wrong-version",
 	"opr-dup", "opr-zero-asset", "spr-nonholder", "spr-dup", "spr-wrong-version", "cross-chain", "tx-zero-self-burn", "tx-unknown-json",
 	"tx-empty-extids", "opr-few", "spr-bad-content", "tx-overflow-conversion", "tx-many-outputs", "spr-bad-sig", "opr-lying-difficulty",
-	"tx-big-content", "spr-empty-staker", "tx-missing-type-length-collision",
+	"tx-big-content", "spr-empty-staker", "tx-missing-type-length-collision", "tx-later-conversion-unconvertible",
 }
 
 // TaggedHostileKinds reproduce recorded legacy-era findings (DESIGN.md §7).
@@ -273,6 +273,38 @@ func (x *Hostile) Apply(kind string, v *View, s *forge.BlockSpec) string {
 		doc := append([]byte(`{"version":1,`), pad...)
 		doc = append(doc, []byte(`"transactions":[]}`)...)
 		s.Tx = append(s.Tx, signedRaw(doc, k))
+	case "tx-later-conversion-unconvertible":
+		// a funded batch whose FIRST conversion is fine and whose second (or third) one goes into an asset
+		// that has no rate (yet), or into a destination closed at this height: the batch is refused as a
+		// whole; whatever check finds it, the block must still be applied
+		k, t, bal, ok := x.anyFunded(v)
+		if !ok || bal < 1000 {
+			return ""
+		}
+		have := map[fat2.PTicker]bool{}
+		for _, a := range AssetsAt(e, h+1) {
+			have[a] = true
+		}
+		var unrated []fat2.PTicker
+		for a := fat2.PTickerInvalid + 1; a < fat2.PTickerMax; a++ {
+			if !have[a] && a != t {
+				unrated = append(unrated, a)
+			}
+		}
+		bad := fat2.PTickerFCT // one-way from OneWaypFCT on; before that simply another conversion
+		if len(unrated) > 0 {
+			bad = unrated[x.rng.Intn(len(unrated))]
+		}
+		good := fat2.PTickerEUR
+		if t == good {
+			good = fat2.PTickerJPY
+		}
+		txs := []forge.Tx{forge.Conversion(k.FA(), t, bal/10, good), forge.Conversion(k.FA(), t, bal/10, bad)}
+		if x.rng.Intn(2) == 0 {
+			txs = append(txs, forge.Conversion(k.FA(), t, bal/10, fat2.PTickerPEG))
+		}
+		s.Tx = append(s.Tx, forge.SignedBatch(txs, salt, k))
+		desc = fmt.Sprintf("batch of %d conversions, the later ones into %s / PEG", len(txs), bad)
 	case "tx-overflow-conversion":
 		return "" // generated by the C17 tagged scenario; needs a huge balance to be meaningful
 	case "tx-zero-self-burn":
